@@ -26,6 +26,8 @@ def gen_can_desc(rng):
         desc["enums"][-1]["vals"] = vals
     enums = [e["name"] for e in desc["enums"]]
     used = set()
+    # bus names as people write them: plain, and with a dot (can.1 / can.2: each bus has a file of its own)
+    buses = rng.choice([["bus1", "bus2"], ["bus1", "bus2"], ["can.1", "can.2"], ["powertrain.fd", "powertrain.hs", "bus1"]])
     for i in range(rng.randint(1, 4)):
         style = rng.choice(["mixed", "bytes", "mux", "mixed"])
         fields, budget = [], rng.choice([64, 64, 64, 80])
@@ -68,7 +70,7 @@ def gen_can_desc(rng):
             fid = rng.choice([x for x in range(0, 2048) if x not in used]); used.add(fid)
             ifs = [("id", fid)]
             if rng.random() < 0.5:
-                ifs.append(("bus", rng.choice(["bus1", "bus2"])))
+                ifs.append(("bus", rng.choice(buses)))
             if rng.random() < 0.4:
                 ifs.append(("device", rng.choice(["ecu", "bms"])))
             sigs = []
@@ -85,7 +87,7 @@ def gen_can_desc(rng):
             if rng.random() < 0.4:
                 # the same struct bound again (another name, id, possibly another bus) with different per-signal options
                 fid2 = rng.choice([x for x in range(0, 2048) if x not in used]); used.add(fid2)
-                ifs2 = [("id", fid2)] + ([("bus", rng.choice(["bus1", "bus2"]))] if rng.random() < 0.5 else [])
+                ifs2 = [("id", fid2)] + ([("bus", rng.choice(buses))] if rng.random() < 0.5 else [])
                 sigs2 = []
                 if style == "bytes":
                     sigs2 = [{"name": f["name"], "fields": [("endianess", "big")]} for f in fields if rng.random() < 0.5]
@@ -160,6 +162,9 @@ def run(chk):
             chk.hist("generation", "raises:" + type(err).__name__)
         else:
             chk.hist("generation", "ok")
+            paths = [str(r["path"]) for r in res]
+            if len(set(paths)) != len(paths):
+                fails.append({"kind": "two-buses-are-written-to-one-file", "schema": text, "buses": [r["bus"] for r in res], "paths": paths})
             buses = []
             enc = make_encoder("packed", fcp, PackedEncoderContext().with_unroll_arrays(True))
             for r in res:
